@@ -28,6 +28,10 @@ CHECKS = {
          "Leg A visits every reachable abstract state of each of the six byte state machines (single- and multi-document) up to the nesting bound and executes all 256 byte values, end of input and one injected reader fault per chunk boundary through the reader and []byte entry points, under recover. Legs B-D enumerate every token sequence up to the length bound into the JSONPath/script parsers, every asm function x arity x argument-kind vector, and every small tree into Unmarshal/Recompose for 26 target types. A panic anywhere is a violation with the input as witness; hangs are caught by the worker watchdog.",
          "Trusted: abstract state key (merged states behave alike for control flow), the token / argument / target alphabets; DESIGN.md §2.5 reading of 'runtime fault' (masked 'runtime error:' error results are counted, not violations).",
          "DESIGN.md §3 C06", "bytemc"),
+ "C07": (MC, "exhaustive depth-bounded search over call histories of one long-lived instance, every call re-executed on a fresh instance; culprit field localised by single-field transplant",
+         "The reused instance (9 instance kinds + the pooled package-level functions of oj and sen) is the state machine and API calls are the alphabet (valid documents, documents aborting in every family of modes, failing readers/writers, option and callback variants, Reuse/OnlyOne/Options changes). Every sequence up to the depth bound is executed; the last call's result (value, error text with line:column, bytes written) must equal the result on a fresh instance with the same exported configuration; earlier returned values are re-inspected after every call and input buffers are overwritten after use. A difference is attributed to the private field whose transplant into a fresh instance reproduces it.",
+         "Trusted: the call alphabets; exported configuration fields count as arguments; documented reused buffers (MustJSON, MustSEN, sen.Bytes, pretty Encode) and Reuse maps are exempt; sync.Pool is emptied by two GC cycles.",
+         "DESIGN.md §3 C07", "core"),
  "C09": (MC, "explicit-state BFS for the state set, then exhaustive whitespace-insertion x offending-byte x chunking enumeration per state",
          "For the witness of every reachable product state, every placement of whitespace/newline insertions at inter-token positions, every offending byte the reference rejects (and end of input when incomplete), two tails and every chunking (whole, one chunk, byte-wise, every 2-split, split after each newline) is executed on all strict front-ends and the reported line:column compared with the byte-exact expectation computed from the input.",
          "Trusted: jsonref decides the first offending byte; BOM-less inputs; insertion count bound (1 quick, 2 thorough).",
